@@ -21,6 +21,7 @@ CONSTANTS Kinds,        \* column kinds (records: name, optional-capable, dictab
           RgSplits,     \* maximum number of row groups
           PageSplits,   \* maximum pages per chunk
           Versions, Encodings, DefRunStyles, IndexRunStyles, IndexWidthStyles, Codecs, CompressedFlags, Creators,
+          StatsChoices, \* chunk statistics the writer records: "absent" | "exact" (min, max, null_count; readers take short cuts on them)
           DictPads      \* numbers of UNUSED entries a writer may put in front of the used ones in a dictionary page
 
 NULL == -1
@@ -56,7 +57,7 @@ VARIABLES col,      \* the logical column and global choices
 vars == <<col, pc, rgs, todoRg, cur, todoPg>>
 
 Cols == [kind : Kinds, n : RowCounts, nullpat : NullPats, valpat : ValPats, optional : Optionals,
-         codec : Codecs, creator : Creators]
+         codec : Codecs, creator : Creators, stats : StatsChoices]
 Sensible(c) == /\ (c.nullpat # "none" => c.optional)
                /\ (c.n = 0 => c.nullpat = "none" /\ c.valpat = "const")
 
